@@ -296,6 +296,15 @@ def _last_segment(chk, repo, folder):
         dn = [s_ for s_ in attr_stores(f.node, "_done") if folder.try_fold(s_.value, ff.scope, None) is True]
         same = [s_ for s_ in dn if {x for x in (ff.facts_in().get(ff.cfg.node_of(s_)) or ())} >= {x for x in (ff.facts_in().get(ff.cfg.node_of(a)) or ())}]
         chk.check(bool(same), "R6", f"{CL}:WritableStream.write | flag paired with _done", f.loc(a), "the last segment is flagged without marking the stream done: close() would send a second last segment")
+        # ... and marked done before the exchange that can fail: when the server aborts or stays silent on the last segment, close()
+        # (which always follows) must not send another one
+        an = ff.cfg.node_of(a)
+        exch = [n for n in ff.cfg.reach_from(an) if n.kind == "stmt" and any(isinstance(c_, ast.Call) and isinstance(c_.func, ast.Attribute) and c_.func.attr in ("request_response", "send_request")
+                                                                             for c_ in ast.walk(n.ast))]
+        dnodes = [ff.cfg.node_of(s_) for s_ in dn]
+        wit = must_pass(ff.cfg, lambda n: n in dnodes, from_node=an, to_nodes=exch) if exch else None
+        chk.check(wit is None, "R6", f"{CL}:WritableStream.write | marked done before the last segment is exchanged", f.loc(a),
+                  f"the last segment goes out before `self._done = True`: if that exchange fails, close() sends a second 'last' segment into a finished transfer ({path_text(wit) if wit else ''})")
     first = f.node.body[0] if not (isinstance(f.node.body[0], ast.Expr) and isinstance(f.node.body[0].value, ast.Constant)) else f.node.body[1]
     chk.check(isinstance(first, ast.If) and src(first.test) == "self._done" and isinstance(first.body[0], ast.Raise), "R6", f"{CL}:WritableStream.write | refuses after the last segment",
               f.loc(first), "write() does not refuse data after the last segment was sent")
